@@ -128,7 +128,7 @@ SUITES.update({
 def system_suite(shape):
     return dict(module="MC_System", kind="simulate", spec="Spec", invariants=["SysValid", "SysStringParses", "SysRebuild", "Emit"],
                 quick=dict(SHAPE='"%s"' % shape, DEPTH=16), thorough=dict(SHAPE='"%s"' % shape, DEPTH=40),
-                simulate=dict(quick="num=60", thorough="num=1500"),
+                simulate=dict(quick="num=60", thorough="num=400"),
                 describe="closed client sessions (PurlSystem): new / setters / build / into_builder / format / respell / parse chained to depth DEPTH "
                          "by TLC -simulate and replayed on live builder, PURL and string objects with the projection compared after every step")
 
